@@ -286,7 +286,7 @@ get_async = Contract(
     params={"submit": Fn, "num_workers": T.Int, "dsk": T.Map(Key, Node), "result": Request, "cache": T.Opt(Cache), "get_id": Fn,
             "rerun_exceptions_locally": T.Opt(T.Bool), "pack_exception": Fn, "raise_exception": Fn, "callbacks": T.U("CallbacksArg"),
             "dumps": Fn, "loads": Fn, "chunksize": T.Opt(T.Int)},
-    locals={"result_flat": SetK, "results": SetK, "started_cbs": T.Seq(CbT), "state": StateT, "IF": SetK, "SUB": SetK},
+    locals={"result_flat": SetK, "results": SetK, "started_cbs": T.Seq(CbT), "state": StateT, "IF": SetK, "SUB": SetK, "n_started": T.Int},
     returns=Val,
     requires=[
         ("workers", "num_workers >= 1"),
@@ -300,14 +300,19 @@ get_async = Contract(
         ("C02-all-needed-ran-once", 'SUB == state["finished"] and forall(lambda k: (k in SUB) == (k in state["dependencies"].keys() and not isdata(k)), Key)'),
         ("C03-nothing-leaked", 'forall(lambda k: implies(k in state["cache"].keys(), k in leaves(old(result))), Key)'),
     ],
-    raises=[("ValueError", "True", "bad-graph"), ("TaskError", "True", "task-failed")],
-    raises_post={"TaskError": [
+    raises=[("ValueError", "True", "bad-graph"), ("TaskError", "True", "task-failed"), ("CallbackError", "True", "a start callback raised")],
+    raises_post={"CallbackError": [
+        ("C05-every-callback-whose-start-returned-gets-its-finish", "len(started_cbs) == n_started"),
+        ("C05-failure-flag", "not succeeded"),
+    ], "TaskError": [
         ("C04-started-tasks-are-exactly-running-or-finished", 'SUB == state["running"] | state["finished"]'),
         ("C04-no-dependent-of-an-unfinished-task-ever-started", 'forall(lambda k, d: implies((k in state["running"] or k in state["finished"]) and d in state["dependencies"][k], d in state["finished"] or isdata(d)), Key, Key)'),
         ("C04-not-marked-succeeded", "not succeeded"),
+        ("C05-every-started-callback-gets-its-finish", "len(started_cbs) == n_started"),
     ]},
     loops={
-        0: dict(invariant=[]),  # start callbacks
+        0: dict(index="c0", end=["n_started = n_started + 1"],  # start callbacks
+                invariant=[("C05-started-callbacks-recorded", "len(started_cbs) == n_started and n_started == c0 and forall(lambda j: implies(0 <= j and j < c0, started_cbs[j] == callbacks[j]))")]),
         1: dict(invariant=[]),  # start_state callbacks
         2: dict(  # main loop
             invariant=WF("state", "EMPTY") + GRAPH + GHOST_INV + [("not-succeeded", "not succeeded")],
@@ -324,7 +329,7 @@ get_async = Contract(
         5: dict(invariant=[]),  # finish callbacks
     },
     ghost=[
-        ("before", "state = {}", "IF = EMPTY\nSUB = EMPTY\nstate = STATE0"),
+        ("before", "state = {}", "IF = EMPTY\nSUB = EMPTY\nstate = STATE0\nn_started = 0"),
         ("before", "if finish:", 'assert_(exiting_by_exception == (not succeeded), "C04-finish-callbacks-get-the-failure-flag")'),
         ("before", "for key, res_info, failed in", 'if len(state["ready"]) == 0 and state["running"] == EMPTY:\n    lemma_no_deadlock(state, pick(state["waiting"].keys()))'),
     ],
@@ -450,6 +455,14 @@ def call_fn(eng, st, fv, node, want):
         eng.pending_raises.append(Outcome("raise", st.copy(), None, "TaskError"))
         st.assume(z3.BoolVal(False))
         return fresh(T.U("Opaque"), "never")
+    if name in ("cb[0]", "start_state"):
+        # a user start / start_state callback may raise: both outcomes are explored
+        from vf.core import Outcome
+        raised = z3.Bool(fresh_name := __import__("vf.core", fromlist=["fresh_name"]).fresh_name("cb_raises"))
+        rs = st.copy()
+        rs.assume(raised)
+        eng.pending_raises.append(Outcome("raise", rs, None, "CallbackError"))
+        st.assume(z3.Not(raised))
     if name == "loads":
         a = eng.ev(node.args[0], st)
         tt = T.Tup(Val, T.U("Opaque"))
